@@ -281,7 +281,10 @@ def read_model_initial_conditions(
         InitCond.th = thini
 
     elif methodstr == "Depth":
-        depths = depth_layer
+        # (the depth points in ascending order: np.interp requires it)
+        order = np.argsort(depth_layer, kind="stable")
+        depths = depth_layer[order]
+        values = values[order]
 
         # Add zero point
         if depths[0] > 0:
